@@ -70,8 +70,14 @@ const handshakeSize = 12
 func performHandshake(rw io.ReadWriter) error {
 	var h handshake
 
-	// Copy exactly handshakeSize bytes from rw to handshake
-	if _, err := io.CopyN(&h, rw, handshakeSize); err != nil {
+	// Read exactly handshakeSize bytes, however the transport happens to segment them, and hand them to the
+	// handshake in one piece.
+	buf := make([]byte, handshakeSize)
+	n, err := io.ReadFull(rw, buf)
+	if err != nil && !errors.Is(err, io.ErrUnexpectedEOF) {
+		return fmt.Errorf("read handshake: %w", err)
+	}
+	if _, err := h.Write(buf[:n]); err != nil {
 		return fmt.Errorf("read handshake: %w", err)
 	}
 	if !h.Valid() {
